@@ -165,9 +165,14 @@ pub(crate) fn add_str_find<W, R, T>(
                     Some(i) => i,
                 },
             };
+            if start_ind > string.len() {
+                return xerr(ManagedXError::new("index out of bounds", rt)?);
+            }
             let haystack = string.substr(start_ind, None);
+            // str::find answers a byte offset; the result is a character index
             let found_idx = haystack
                 .find(needle.as_str())
+                .map(|i| haystack[..i].chars().count())
                 .map(|i| ManagedXValue::new(XValue::Int((i + start_ind).into()), rt.clone()))
                 .transpose()?;
             Ok(manage_native!(XOptional { value: found_idx }, rt))
@@ -202,8 +207,10 @@ pub(crate) fn add_str_rfind<W, R, T>(
                 }),
             };
             let haystack = string.substr(0, end_ind);
+            // str::rfind answers a byte offset; the result is a character index
             let found_idx = haystack
                 .rfind(needle.as_str())
+                .map(|i| haystack[..i].chars().count())
                 .map(|i| ManagedXValue::new(XValue::Int(i.into()), rt.clone()))
                 .transpose()?;
             Ok(manage_native!(XOptional { value: found_idx }, rt))
